@@ -22,30 +22,37 @@ META = {
     "technique": "TLC exhaustive on spec/discovery/Discovery.tla (one action per critical section / call into an injected "
                  "interface; every interleaving of two discovery workers, the disconnect loop, the discovery loop, Peers(ctx) "
                  "callers, connection loss, inbound connections, failing dials, ticks and the back-off GC on small constants; "
-                 "liveness under weak fairness in the thorough tier). Binding (B2): seeded random behaviours of the model "
-                 "(coarse schedules = internal steps taken at once) and TLC's counterexamples for the properties that do not "
-                 "hold are replayed action by action on the real Discovery (fake libp2p host, stub discovery backend, gates at "
-                 "Connectedness / Connect / callback / Protect / Unprotect / FindPeers / event delivery and at four verif hooks) "
-                 "and on a bare limitedSet; after every step the real set, callback log, protected peers, back-off records, "
-                 "goroutine positions and Peers(ctx) results are compared with the model, and the properties are evaluated on "
-                 "the real state.",
+                 "thorough: liveness under weak fairness, model variants with the race windows closed). Binding (B2): seeded "
+                 "random behaviours of the model (coarse schedules = internal steps taken at once), behaviours TLC finds for a "
+                 "list of coverage goals (rarely taken decision branches) and for the states in which a property fails, are "
+                 "replayed action by action on the real Discovery (fake libp2p host, stub discovery backend, gates at "
+                 "Connectedness / Connect / callback / Protect / Unprotect / FindPeers / event delivery and at four verif hooks; "
+                 "the callbacks feed a real shrex peers.Manager as nodebuilder wires it) and on a bare limitedSet; after every "
+                 "step the real set, the peer manager's node pool, callback log, protected peers, back-off records, goroutine "
+                 "positions and Peers(ctx) results are compared with the model, and the properties are evaluated on the real "
+                 "state. The connector's GC loop is probed once per run in real time.",
     "level_text": "model_checking: on the bounded models the code as it is keeps SizeBound (|set| <= 2*limit-1), reports every "
-                  "change of the set exactly once, leaves an active back-off after every contact, GC never changes HasBackoff, "
-                  "Peers(ctx) returns a non-empty slice or the context's error, discovery restarts whenever the set is below its "
-                  "limit and every worker ends (thorough: under fairness). The real code follows every replayed behaviour. "
-                  "Properties that do NOT hold for the code as it is (hard limit, round only below the limit, member is "
-                  "connected, added-before-removed, view = set at rest, protection follows membership, no stranded Peers(ctx) "
-                  "caller) are documented by a TLC counterexample each, forced on the real code and reported as findings.",
+                  "change of the set exactly once, starts a FindPeers round only below the limit (since /repo f5c221a), leaves "
+                  "an active back-off after every contact, GC never changes HasBackoff, Peers(ctx) returns a non-empty slice or "
+                  "the context's error; thorough: discovery restarts whenever the set is below its limit, every worker ends, "
+                  "every disconnect event is handled (weak fairness). The real code follows every replayed behaviour. "
+                  "Properties that do NOT hold for the code as it is (member is connected, added-before-removed, view = set at "
+                  "rest, protection follows membership, no stranded Peers(ctx) caller; by design: hard limit, no dial during a "
+                  "back-off set by Discard) are each documented by a TLC behaviour, forced on the real code and printed as "
+                  "KNOWN-FINDING; TLC shows that the variants Serialized / AtomicPeers of the model keep them.",
     "level_note": "A failure of a property on the real code counts as a violation only where the model satisfies the property in "
-                  "the same state; where the model shares the failure it is the modelled defect (printed as KNOWN-FINDING, local "
-                  "list in this module: known_findings.jsonl is not touched). A difference between model and code that breaks no "
-                  "property is conformance drift (exit 2). The libp2p host, connection manager, event bus and discovery backend "
-                  "are scripted fakes: what libp2p does is environment. Time: back-off deadlines are moved into the past "
-                  "(one hour per model tick) instead of waiting; Before/After exactly on a deadline is not modelled. The "
-                  "connector's GC runs on a one-minute ticker: it is in the model, bound by one real-time probe per run, and "
-                  "absent from the replayed behaviours. Stop/cancellation of the Discovery and Advertise are not modelled. "
-                  "The backend returns each id at most once per round. PeersLimit is a SOFT limit by its documentation: the "
-                  "overshoot is recorded, not alarmed.",
+                  "the same state; where the model shares the failure it is the modelled defect (KNOWN-FINDING from the local list "
+                  "FINDINGS of this module: known_findings.jsonl is not touched). A 'fixed' entry is checked the other way round: "
+                  "the behaviour of the model variant without the fix must NOT be reproducible (else violation fix-reverted). A "
+                  "difference between model and code that breaks no property is conformance drift (exit 2). The libp2p host, "
+                  "connection manager, event bus and discovery backend are scripted fakes: what libp2p does is environment. "
+                  "Time: back-off deadlines are moved into the past (one hour per model tick) instead of waiting; Before/After "
+                  "exactly on a deadline is not modelled. The connector's GC runs on a one-minute ticker: it is in the model, "
+                  "bound by one real-time probe per run, and absent from the replayed behaviours. Stop/cancellation of the "
+                  "Discovery and Advertise are not modelled. The backend returns each id at most once per round. PeersLimit is "
+                  "a SOFT limit by its documentation: the overshoot is recorded, not alarmed. Replayed schedules are the coarse "
+                  "ones (a goroutine runs from one gate to the next without interruption); the finer interleavings are "
+                  "covered by TLC only.",
     "design_ref": "DESIGN.md §10 (discovery set / back-off)",
 }
 
